@@ -934,3 +934,41 @@ func (c *Ctx) storeReachUnder(p *Program, rule, what string, f *ssa.Function, va
 		c.ok(rule, construct, fmt.Sprintf("%d executable %s", len(hits), storeDesc), p.fnPos(f))
 	}
 }
+
+// fieldStoreRule: every store in f into a struct field named field (of an object f builds or updates)
+// stores a value whose provenance descriptor matches want.
+func (c *Ctx) fieldStoreRule(p *Program, rule, what string, f *ssa.Function, field, want string) {
+	if f == nil {
+		c.undecided(rule, what, "anchor function does not resolve", "")
+		return
+	}
+	construct := fname(f) + ": " + what
+	rx := regexp.MustCompile("^(?:" + want + ")$")
+	n := 0
+	var bad []string
+	for _, b := range f.Blocks {
+		for _, in := range b.Instrs {
+			st, ok := in.(*ssa.Store)
+			if !ok {
+				continue
+			}
+			fa, ok := st.Addr.(*ssa.FieldAddr)
+			if !ok || fieldName(fa) != field {
+				continue
+			}
+			n++
+			if d := descVal(st.Val); !rx.MatchString(d) {
+				bad = append(bad, fmt.Sprintf("%s: field %s receives %s", p.pos(st.Pos()), field, d))
+			}
+		}
+	}
+	switch {
+	case n == 0:
+		c.undecided(rule, construct, "no store into a field named "+field+" found", p.fnPos(f))
+	case len(bad) > 0:
+		sort.Strings(bad)
+		c.bad(rule, construct, strings.Join(bad, "; ")+"; specification: "+want, p.fnPos(f))
+	default:
+		c.ok(rule, construct, fmt.Sprintf("%d store(s) into %s, each of a value matching %s", n, field, want), p.fnPos(f))
+	}
+}
